@@ -97,42 +97,75 @@ package style
 // NewStyleManager returns a usable registry (needed by Open: C06).
 // The predefined styles are built from literals and registered in the manager's own map: nothing below the
 // ownership bound B (see pkg/document/zz_contracts_verif_template.go) is written.
+// C13: each add* helper registers the ids named in its postcondition (spec functions in zz_contracts_verif_registry.go),
+// keeps every id that was registered before, and every entry of the registry is afterwards either the entry it
+// was before or an allocated style object that carries the id it is registered under (the two-state form of
+// styRegOK: it composes over a sequence of such calls and literal allocations without a quantified antecedent).
 //@ func (*StyleManager).addHeadingStyles
-//@ props C17
+//@ props C17, C13
 //@ ghost B int
 //@ requires sm != nil && sm.styles != nil && above(sm.styles, B)
 //@ modifies map:string:*Style
 //@ ensures unchangedBelow(B)
+//@ ensures styHeadings(sm)
+//@ ensures forall k string :: old(has(sm.styles, k)) ==> has(sm.styles, k)
+//@ ensures forall k string :: {has(sm.styles, k)} has(sm.styles, k) ==> (old(has(sm.styles, k)) && sm.styles[k] == old(sm.styles[k])) || (sm.styles[k] != nil && sm.styles[k].StyleID == k && live(sm.styles[k]))
 
 //@ func (*StyleManager).addTOCStyles
-//@ props C17
+//@ props C17, C13
 //@ ghost B int
 //@ requires sm != nil && sm.styles != nil && above(sm.styles, B)
 //@ modifies map:string:*Style
 //@ ensures unchangedBelow(B)
+//@ ensures styTOCIds(sm)
+//@ ensures forall k string :: old(has(sm.styles, k)) ==> has(sm.styles, k)
+//@ ensures forall k string :: {has(sm.styles, k)} has(sm.styles, k) ==> (old(has(sm.styles, k)) && sm.styles[k] == old(sm.styles[k])) || (sm.styles[k] != nil && sm.styles[k].StyleID == k && live(sm.styles[k]))
 //@ loop 1
 //@   invariant 4 <= level && level <= 10 && unchangedBelow(B)
+//@   invariant sm != nil && sm.styles != nil && above(sm.styles, B)
+//@   invariant has(sm.styles, "13") && has(sm.styles, "14") && has(sm.styles, "15")
+//@   invariant forall n int :: {itoa(n)} 16 <= n && n < 12 + level ==> has(sm.styles, itoa(n))
+//@   invariant forall k string :: old(has(sm.styles, k)) ==> has(sm.styles, k)
+//@   invariant forall k string :: {has(sm.styles, k)} has(sm.styles, k) ==> (old(has(sm.styles, k)) && sm.styles[k] == old(sm.styles[k])) || (sm.styles[k] != nil && sm.styles[k].StyleID == k && live(sm.styles[k]))
 //@   decreases 10 - level
 
 //@ func (*StyleManager).addSpecialStyles
-//@ props C17
+//@ props C17, C13
 //@ ghost B int
 //@ requires sm != nil && sm.styles != nil && above(sm.styles, B)
 //@ modifies map:string:*Style
 //@ ensures unchangedBelow(B)
+//@ ensures stySpecials(sm) && styTOCIds(sm) && styTables(sm)
+//@ ensures forall k string :: old(has(sm.styles, k)) ==> has(sm.styles, k)
+//@ ensures forall k string :: {has(sm.styles, k)} has(sm.styles, k) ==> (old(has(sm.styles, k)) && sm.styles[k] == old(sm.styles[k])) || (sm.styles[k] != nil && sm.styles[k].StyleID == k && live(sm.styles[k]))
 
+// C13: the registry of a new manager defines every id the document helpers emit (Normal, Heading1..9, Quote,
+// CodeBlock, the TOC entry ids "12".."21", the table styles "a1"/"ab", ...), each under its own id.
 //@ func NewStyleManager
-//@ props C06, C17
+//@ props C06, C17, C13
 //@ ghost B int = allocBound()
 //@ modifies nothing
-//@ ensures result != nil && result.styles != nil && fresh(result)
+//@ ensures result != nil && result.styles != nil && fresh(result) && fresh(result.styles)
+//@ ensures styRegOK(result)
+//@ ensures has(result.styles, "Normal") && styHeadings(result) && stySpecials(result) && styTOCIds(result) && styTables(result)
 
 // GetAllStyles builds a fresh slice and writes nothing that existed before (used by serializeStyles: C05/C04/C13).
+// C13: the list holds exactly the registered styles: every registered id is listed, every listed style is the
+// one registered under its own id, and no style is listed twice.
 //@ func (*StyleManager).GetAllStyles
-//@ props C05, C04
+//@ props C05, C04, C13
+//@ appendfacts
 //@ requires sm != nil
 //@ modifies nothing
 //@ ensures cap(result) == 0 || freshArr(result)
+//@ ensures forall k string :: sm.styles != nil && has(sm.styles, k) ==> exists j int :: 0 <= j && j < len(result) && result[j] == sm.styles[k]
+//@ ensures forall j int :: 0 <= j && j < len(result) ==> exists k string :: has(sm.styles, k) && result[j] == sm.styles[k]
+//@ ensures old(styRegOK(sm)) ==> forall j int :: 0 <= j && j < len(result) ==> result[j] != nil && has(sm.styles, result[j].StyleID) && sm.styles[result[j].StyleID] == result[j]
+//@ ensures old(styRegOK(sm)) ==> forall i int, j int :: 0 <= i && i < j && j < len(result) ==> result[i] != result[j]
 //@ loop 1
 //@   invariant unchangedHeap()
 //@   invariant cap(styles) == 0 || arr(styles) >= old(allocBound())
+//@   invariant forall k string :: {seen(k)} seen(k) ==> has(sm.styles, k) && (exists j int :: {styles[j]} 0 <= j && j < len(styles) && styles[j] == sm.styles[k])
+//@   invariant forall j int :: {styles[j]} 0 <= j && j < len(styles) ==> exists k string :: {seen(k)} seen(k) && styles[j] == sm.styles[k]
+//@   invariant old(styRegOK(sm)) ==> forall j int :: 0 <= j && j < len(styles) ==> styles[j] != nil && seen(styles[j].StyleID) && sm.styles[styles[j].StyleID] == styles[j]
+//@   invariant old(styRegOK(sm)) ==> forall i int, j int :: 0 <= i && i < j && j < len(styles) ==> styles[i] != styles[j]
